@@ -4,6 +4,7 @@ import (
 	"fmt"
 	"go/token"
 	"go/types"
+	"sort"
 	"strings"
 
 	"golang.org/x/tools/go/ssa"
@@ -477,7 +478,7 @@ func checkC12(p *core.Program, r *core.Report) {
 		bad := selectNilReturnOffArm(host, sel, sendIdx)
 		key := "write-entry " + p.FnName(w) + " select-arms"
 		if bad != nil {
-			r.Fail(R3, key, p.Pos(bad.Pos()), "the escape/default arm of the enqueue select returns a nil error")
+			r.Fail(R3, key, p.Pos(bad.Pos()), "the escape/default arm of the enqueue select returns an error that can be nil (a constant nil, or a stored value such as the close error, which is nil after a local close): the writer is told success for a message that was never queued")
 		} else {
 			r.OK(R3, key, p.Pos(sel.Pos()), "only the send arm returns nil")
 		}
@@ -724,8 +725,34 @@ func selectNilReturnOffArm(fn *ssa.Function, sel *ssa.Select, sendIdx int) ssa.I
 		if !ok || len(ret.Results) == 0 {
 			return false
 		}
-		return core.IsNilConst(core.ResultOf(ret, len(ret.Results)-1))
+		return maybeNilError(core.ResultOf(ret, len(ret.Results)-1), 0)
 	}, nil, removed)
+}
+
+// maybeNilError: the error value is not known to be non-nil (a constant nil, or anything that is not a freshly
+// constructed error: e.g. the stored close error, which is nil after a local close).
+func maybeNilError(v ssa.Value, depth int) bool {
+	if core.IsNilConst(v) {
+		return true
+	}
+	if neverNilError(v) {
+		return false
+	}
+	switch x := v.(type) {
+	case *ssa.MakeInterface:
+		return false
+	case *ssa.Phi:
+		if depth > 3 {
+			return true
+		}
+		for _, e := range x.Edges {
+			if maybeNilError(e, depth+1) {
+				return true
+			}
+		}
+		return false
+	}
+	return true
 }
 
 func checkC13(p *core.Program, r *core.Report) {
@@ -825,6 +852,26 @@ func checkC13(p *core.Program, r *core.Report) {
 			r.OK(R2, key, p.Pos(setSite.Pos()), "closed flag is set before the socket is closed")
 		} else {
 			r.Fail(R2, key, p.Pos(ob.Pos()), "the close routine does not set the closed flag before closing the socket: a deliberate local close is then reported as a connection error by the read pump")
+		}
+	}
+	// the function that wraps the once enters it on every path (the once is the only idempotence guard: a
+	// shortcut "already marked closed, nothing to do" skips the release for the error paths, which mark first)
+	for _, fn := range a.fns {
+		if !a.closers[fn] {
+			continue
+		}
+		key := fmt.Sprintf("%s closer %s always enters the once", tn, p.FnName(fn))
+		isDo := func(in ssa.Instruction) bool {
+			if !core.IsStaticCall(in, "(*sync.Once).Do") {
+				return false
+			}
+			fa, ok := core.Common(in).Args[0].(*ssa.FieldAddr)
+			return ok && core.NamedOf(fa.X.Type()) == a.typ
+		}
+		if bad := core.MustPass(fn, nil, isDo, nil); bad != nil {
+			r.Fail(R1, key, p.Pos(bad.Pos()), "a path through the close function returns without entering the once-guarded close routine (e.g. because the connection is already marked closed): the write-error path marks the connection before it calls close, so the stop channel and the socket are never closed and blocked writers are never released")
+		} else {
+			r.OK(R1, key, p.Pos(fn.Pos()), "every path enters the once")
 		}
 	}
 	// every flag-setting site outside the once body also runs the close routine
@@ -1201,6 +1248,54 @@ func checkC13(p *core.Program, r *core.Report) {
 		}
 	} else {
 		r.Unresolved(R8, "CloseDataConnection of the websocket connection")
+	}
+	// ---- R10 callbacks into the SHIP layer are open calls
+	const R10 = "C13.R10 callbacks-hold-no-transport-lock"
+	r.Rule(R10, "every call of the data-processing callbacks (ReportConnectionError, HandleIncomingWebsocketMessage) is made with no mutex of the websocket connection held on any path: the SHIP layer reacts to a reported error by calling back into the transport (CloseDataConnection with a reason writes a close frame and takes the write mutex), so a report made under that mutex blocks the reporting pump for ever and the end of the connection is never told")
+	checkOpenCalls(p, r, R10, a.fns, "ws.", func(in ssa.Instruction) string {
+		c := core.Common(in)
+		if c == nil || !c.IsInvoke() {
+			return ""
+		}
+		if core.IsInvokeOf(in, a.mReport) || core.IsInvokeOf(in, a.mIncoming) {
+			return c.Method.Name()
+		}
+		return ""
+	})
+	r.Floor(R10, 2)
+	// ---- R11 the error is stored and the close routine has run before the SHIP layer is told
+	const R11 = "C13.R11 closed-before-told"
+	r.Rule(R11, "every report of a connection error is preceded by the close routine (shared with C12.R6): while the SHIP layer handles the report the read pump must not deliver further messages and the closed-query must already answer with the error")
+	importRules(p, r, "C12", map[string]string{"C12.R6 release-before-report": R11}, nil)
+}
+
+// checkOpenCalls: the calls selected by foreign (returns a name, "" = not selected) in fns are made with no
+// mutex whose id starts with ownPrefix held on any path (interprocedural may-locksets, callers within fns).
+func checkOpenCalls(p *core.Program, r *core.Report, rule string, fns []*ssa.Function, ownPrefix string, foreign func(ssa.Instruction) string) {
+	may := core.MayLocks(fns)
+	seen := map[string]bool{}
+	for _, fn := range fns {
+		fn := fn
+		core.EachInstr(fn, func(in ssa.Instruction) {
+			name := foreign(in)
+			if name == "" {
+				return
+			}
+			var held []string
+			for id := range may[in] {
+				if strings.HasPrefix(id, ownPrefix) {
+					held = append(held, id)
+				}
+			}
+			sort.Strings(held)
+			key := name + " in " + p.FnName(fn) + " is an open call"
+			if len(held) > 0 {
+				r.Fail(rule, key, p.Pos(in.Pos()), fmt.Sprintf("%s is called while %v may be held: the callee calls back into this object (or waits for a goroutine that does) and needs the same mutex", name, held))
+				seen[key] = true
+			} else if !seen[key] {
+				r.OK(rule, key, p.Pos(in.Pos()), "no own mutex held on any path")
+			}
+		})
 	}
 }
 
